@@ -61,8 +61,7 @@ def declaredUnmodelled : List String :=
     "funsor.tensor.eager_getslice_tensor", "funsor.tensor.eager_lambda", "funsor.tensor.eager_reduction_tensor",
     "funsor.tensor.eager_reshape_tensor", "funsor.tensor.eager_scatter_number", "funsor.tensor.eager_scatter_tensor",
     -- second wave: constants, deltas, Gaussians, joint, integrate, approximations, markov
-    "funsor.constant.eager_binary_constant_constant", "funsor.constant.eager_binary_constant_tensor",
-    "funsor.constant.eager_binary_tensor_constant", "funsor.constant.eager_reduce_add", "funsor.constant.eager_unary",
+    "funsor.constant.eager_reduce_add", "funsor.constant.eager_unary",
     "funsor.delta.eager_add_delta_funsor", "funsor.delta.eager_add_funsor_delta", "funsor.delta.eager_add_multidelta",
     "funsor.delta.eager_independent_delta",
     "funsor.gaussian._compress_gaussians", "funsor.gaussian.eager_add_gaussian_gaussian", "funsor.gaussian.eager_sub",
@@ -77,8 +76,15 @@ def declaredUnmodelled : List String :=
     "funsor.approximations.mean_approximate_logaddexp",
     "funsor.sum_product.eager_markov_product" ]
 
+/-- Rule functions modelled on a desugared wrapper rather than on `Term` (Model/C02Constant.lean, soundness in
+    Props/C02/Constant.lean): name ↦ model rule. -/
+def modelledDesugared : List (String × String) :=
+  [("funsor.constant.eager_binary_constant_constant", "binaryConstConst"),
+   ("funsor.constant.eager_binary_constant_tensor", "binaryConstTensor"),
+   ("funsor.constant.eager_binary_tensor_constant", "binaryTensorConst")]
+
 def classified (e : FV.Gen.C02.Entry) : Bool :=
-  (modelled.lookup e.rule).isSome || declaredUnmodelled.contains e.rule
+  (modelled.lookup e.rule).isSome || (modelledDesugared.lookup e.rule).isSome || declaredUnmodelled.contains e.rule
 
 /-- Every registered rule is classified: a NEWLY REGISTERED RULE breaks this until it is given a model or
     listed in `declaredUnmodelled`. -/
